@@ -13,17 +13,17 @@ _ASSUME = [
 UNITS_LOCAL = {"C16": [
     Unit("bytes", _SRC, repo_src=_REPO, flags=ASAN, env=ASAN_ENV, engine="gridmc", opt="-O1",
          args={"quick": ["--part", "bytes"], "thorough": ["--part", "bytes"]},
-         budget={"quick": 150, "thorough": 900},
+         budget={"quick": 300, "thorough": 2400},
          rule="(i) every byte string of length <= 6 (thorough 7) over the 12 symbols < > / a = \" ' space ! - ? \\ written to a file and given to readXML; verdict per input: returned / std::runtime_error (ok) vs other exception, sanitizer report, signal, 10 s alarm (violation). distinct = distinct returned trees and error messages",
          assumptions=_ASSUME),
     Unit("trees", _SRC, repo_src=_REPO, flags=ASAN, env=ASAN_ENV, engine="gridmc", opt="-O1",
          args={"quick": ["--part", "trees"], "thorough": ["--part", "trees"]},
-         budget={"quick": 150, "thorough": 900},
+         budget={"quick": 300, "thorough": 2400},
          rule="(ii) every document of the tree space: root element + 0..2 leaf children, names {a,b_1}, property sets {none, k, k l} x both quote styles (thorough: + empty values, other quote inside, markup characters inside), body self-closing / empty open-close / text / children with text before or after them, header {none, <?xml version=\"1.0\"?>} (thorough: + <?xml?>, two-property header), comment patterns {none, every slot, even slots, odd slots} over the slots before/between/after items (thorough: + every slot with a second comment text), layouts compact / pretty LF (thorough: CRLF+tabs); plus nesting chains of depth 1..8. Parsed tree compared node by node (name, property map, trimmed content, child order). distinct = distinct returned trees",
          assumptions=_ASSUME),
     Unit("mutations", _SRC, repo_src=_REPO, flags=ASAN, env=ASAN_ENV, engine="gridmc", opt="-O1",
          args={"quick": ["--part", "mutations"], "thorough": ["--part", "mutations"]},
-         budget={"quick": 150, "thorough": 1000},
-         rule="(iii) every document of the (ii) space (quick option lists) of at most 36 bytes (thorough 60): every truncation (prefix of every length) and every single byte replaced by every other symbol of the 12-symbol alphabet; verdict as in (i). distinct = distinct returned trees, error messages and deaths",
+         budget={"quick": 300, "thorough": 2400},
+         rule="(iii) every document of the (ii) space (quick option lists) of at most 36 bytes (thorough 60): every truncation (prefix of every length) and every single byte replaced by every other symbol of the 12-symbol alphabet; for the documents of at most 24 (thorough 36) bytes also every truncation with its last byte replaced by every other symbol; verdict as in (i). distinct = distinct returned trees, error messages and deaths",
          assumptions=_ASSUME),
 ]}
